@@ -23,15 +23,22 @@ def main():
         patch = os.path.join(d, "patch.diff")
         demo = os.path.join(d, "demo.py")
         env = "PYTHONWARNINGS=ignore PYTHONPATH=/repo/src"
-        clean = sh("%s timeout 300 /venv/bin/python %s" % (env, demo)).returncode
+        hasdemo = os.path.exists(demo)
+        clean = sh("%s timeout 300 /venv/bin/python %s" % (env, demo)).returncode if hasdemo else "-"
         if sh("git -C /repo apply " + patch).returncode != 0:
             rows.append((name, meta, "patch does not apply to the current tree", {}, clean, None)); continue
         try:
-            dirty = sh("%s timeout 300 /venv/bin/python %s" % (env, demo)).returncode
+            dirty = sh("%s timeout 300 /venv/bin/python %s" % (env, demo)).returncode if hasdemo else "-"
             res = {}
             for c in meta.get("detected_by", []) or [meta["breaks"]]:
                 t0 = time.time()
+                ev = os.path.join(V, "evidence", c + ".json")       # evidence files describe the unchanged tree: put them back
+                keep = open(ev, "rb").read() if os.path.exists(ev) else None
                 r = sh("cd /verif && ./check %s --tier quick" % c)
+                if keep is not None:
+                    open(ev, "wb").write(keep)
+                elif os.path.exists(ev):
+                    os.remove(ev)
                 keys = [l.split("key=")[1].split()[0] for l in r.stdout.splitlines() if l.startswith("VIOLATION") and "key=" in l]
                 res[c] = (r.returncode, keys[:2], round(time.time() - t0, 1))
         finally:
@@ -41,8 +48,8 @@ def main():
     sh("rm -rf /tmp/hio* /root/hio")
     with open(os.path.join(V, "DETECTION.md"), "w") as f:
         f.write("# Seeded changes and the checks that catch them\n\n"
-                "Each row: a change to ioflo/hio written by an independent sub-agent from the text of one property only "
-                "(see DESIGN.md section 14), re-verified here: the demo exits 0 on the clean tree and non-zero with the patch; "
+                "Each row: a change to ioflo/hio that breaks one property (written by an independent sub-agent from the text of the property only, "
+                "with a demo script, or by hand without one: demo column '-'; see DESIGN.md section 14), re-verified here: the demo exits 0 on the clean tree and non-zero with the patch; "
                 "the patch is applied to /repo, the listed checks run at quick tier, the patch is reverted. "
                 "`exit 1` = the check reports a VIOLATION. Regenerate with `python3 tools/detection.py`.\n\n"
                 "| Seeded change | Breaks | Needs | demo clean/patched | Check: exit, first keys, seconds | Note |\n|---|---|---|---|---|---|\n")
